@@ -17,7 +17,9 @@ Variable doc : document.
 Variable vs : vars.
 Variable U : usercode.
 Variable cfg : config.
-Hypothesis Hconc : parent_concurrently cfg = true.
+(* full = true: exact accounting (needs every sibling executed); full = false: inclusion only *)
+Variable full : bool.
+Hypothesis Hmode : full = true -> parent_concurrently cfg = true.
 
 Definition opaths (o : list (list pkey)) : list (option (list pkey)) := map Some o.
 (* where a travelling exception will be located: where it already is, or at the current position *)
@@ -30,15 +32,19 @@ Definition all_located (l : list perr) : Prop := Forall (fun e => p_path e <> No
 
 (* the same paths occur (an origin may be reported by several errors, e.g. one per failing argument) *)
 Definition sameset {X} (a b : list X) : Prop := forall x, In x a <-> In x b.
+(* what is reported is an origin; with full accounting every origin is reported too *)
+Definition rel {X} (a b : list X) : Prop := forall x, (In x a -> In x b) /\ (full = true -> In x b -> In x a).
+Lemma sameset_rel {X} (a b : list X) : sameset a b -> rel a b.
+Proof. intros H x. specialize (H x). tauto. Qed.
 
 (* data AND accounting: from every state, the computation appends errors E and returns / raises
    such that the paths of E (plus those of the raised exceptions) are the specification's origins *)
 Definition A (p : list pkey) (m : M pyval) (r : sres) : Prop :=
   forall s,
     match r with
-    | SVal v o => exists E, s_errors (snd (m s)) = s_errors s ++ E /\ fst (m s) = OVal v /\ sameset (reported E) (opaths o)
+    | SVal v o => exists E, s_errors (snd (m s)) = s_errors s ++ E /\ fst (m s) = OVal v /\ rel (reported E) (opaths o)
     | SFail o => exists E, s_errors (snd (m s)) = s_errors s ++ E /\
-                   exists l, fst (m s) = OExc l /\ sameset (reported E ++ raised_at p l) (opaths o)
+                   exists l, fst (m s) = OExc l /\ rel (reported E ++ raised_at p l) (opaths o)
     | SCrash => True
     end.
 
@@ -46,9 +52,9 @@ Definition Af (p : list pkey) (m : M (option pyval)) (r : option sres) : Prop :=
   forall s,
     match r with
     | None => s_errors (snd (m s)) = s_errors s /\ fst (m s) = OVal None
-    | Some (SVal v o) => exists E, s_errors (snd (m s)) = s_errors s ++ E /\ fst (m s) = OVal (Some v) /\ sameset (reported E) (opaths o)
+    | Some (SVal v o) => exists E, s_errors (snd (m s)) = s_errors s ++ E /\ fst (m s) = OVal (Some v) /\ rel (reported E) (opaths o)
     | Some (SFail o) => exists E, s_errors (snd (m s)) = s_errors s ++ E /\
-                   exists l, fst (m s) = OExc l /\ all_located l /\ sameset (reported E ++ raised_at p l) (opaths o)
+                   exists l, fst (m s) = OExc l /\ all_located l /\ rel (reported E ++ raised_at p l) (opaths o)
     | Some SCrash => True
     end.
 
@@ -79,8 +85,8 @@ Proof.
 Qed.
 
 Ltac sset :=
-  unfold sameset in *; let x := fresh "x" in intros x;
-  repeat match goal with H : forall y, In y _ <-> In y _ |- _ => specialize (H x) end;
+  unfold rel in *; let x := fresh "x" in intros x;
+  repeat match goal with H : forall y, (In y _ -> In y _) /\ _ |- _ => specialize (H x) end;
   rewrite ?reported_app, ?raised_at_app, ?opaths_app in *; rewrite ?in_app_iff in *; tauto.
 
 (* ---------- sibling fields, all executed ---------- *)
@@ -89,13 +95,13 @@ Lemma conc_acct (rf : string -> list fnode -> M (option pyval)) sf (fp : string 
   spec_fields sf fs = (rkv, ro, false) ->
   exists E, s_errors (snd (exec_fields_conc rf fs s)) = s_errors s ++ E /\
     match rkv with
-    | Some kv => fst (exec_fields_conc rf fs s) = OVal kv /\ sameset (reported E) (opaths ro)
+    | Some kv => fst (exec_fields_conc rf fs s) = OVal kv /\ rel (reported E) (opaths ro)
     | None => exists l, fst (exec_fields_conc rf fs s) = OExc l /\ all_located l /\
-                        sameset (reported E ++ raised_at [] l) (opaths ro)
+                        rel (reported E ++ raised_at [] l) (opaths ro)
     end.
 Proof.
   intros H. induction fs as [|[k nodes] rest IH]; intros s rkv ro; cbn [spec_fields exec_fields_conc].
-  - intros E. inversion E. exists []. rewrite app_nil_r. repeat split; intros Hx; exact Hx.
+  - intros E. inversion E. exists []. rewrite app_nil_r. split; [reflexivity|]. split; [reflexivity|]. intros y. tauto.
   - destruct (spec_fields sf rest) as [[rkv0 ro0] rc0] eqn:Er.
     pose proof (H k nodes s) as Hk.
     destruct (rf k nodes s) as [r s1] eqn:E1r. cbn [fst snd] in Hk.
@@ -125,6 +131,45 @@ Proof.
         exists l'. split; [reflexivity|split; [exact Hl'|exact Hp2]].
 Qed.
 
+(* awaited one by one: the first exception stops the chain; what was reported so far is an origin *)
+Lemma seq_acct (rf : string -> list fnode -> M (option pyval)) sf (fp : string -> list pkey) :
+  full = false ->
+  (forall k ns, Af (fp k) (rf k ns) (sf k ns)) -> forall fs s rkv ro,
+  spec_fields sf fs = (rkv, ro, false) ->
+  exists E, s_errors (snd (exec_fields_seq rf fs s)) = s_errors s ++ E /\
+    match rkv with
+    | Some kv => fst (exec_fields_seq rf fs s) = OVal kv /\ rel (reported E) (opaths ro)
+    | None => exists l, fst (exec_fields_seq rf fs s) = OExc l /\ all_located l /\
+                        rel (reported E ++ raised_at [] l) (opaths ro)
+    end.
+Proof.
+  intros Hfull H. induction fs as [|[k nodes] rest IH]; intros s rkv ro; cbn [spec_fields exec_fields_seq].
+  - intros E. inversion E. exists []. rewrite app_nil_r. split; [reflexivity|]. split; [reflexivity|]. intros y. tauto.
+  - destruct (spec_fields sf rest) as [[rkv0 ro0] rc0] eqn:Er.
+    pose proof (H k nodes s) as Hk.
+    destruct (rf k nodes s) as [r s1] eqn:E1r. cbn [fst snd] in Hk.
+    destruct (sf k nodes) as [[v o|o|]|]; intros Eq; inversion Eq; subst; clear Eq.
+    + destruct Hk as (E1 & HE1 & -> & Hp1). destruct (IH s1 _ _ eq_refl) as (E2 & HE2 & Hr).
+      destruct (exec_fields_seq rf rest s1) as [rs s2]. cbn [fst snd] in *.
+      destruct rkv0 as [kv|].
+      * destruct Hr as [-> Hp2]. cbn [fst snd]. exists (E1 ++ E2). split; [now rewrite HE2, HE1, app_assoc|].
+        split; [reflexivity|sset].
+      * destruct Hr as (l & -> & Hl & Hp2). cbn [fst snd]. exists (E1 ++ E2). split; [now rewrite HE2, HE1, app_assoc|].
+        exists l. split; [reflexivity|]. split; [exact Hl|sset].
+    + destruct Hk as (E1 & HE1 & l & -> & Hl & Hp1). cbn [fst snd].
+      rewrite (raised_at_located (fp k) [] l Hl) in Hp1.
+      exists E1. split; [exact HE1|]. exists l. split; [reflexivity|]. split; [exact Hl|].
+      unfold rel in *. intros x. specialize (Hp1 x). rewrite Hfull. rewrite opaths_app, !in_app_iff in *.
+      split; [tauto|intros Hc; discriminate Hc].
+    + destruct Hk as [HE1 ->]. destruct (IH s1 _ _ eq_refl) as (E2 & HE2 & Hr).
+      destruct (exec_fields_seq rf rest s1) as [rs s2]. cbn [fst snd] in *.
+      destruct rkv as [kv|].
+      * destruct Hr as [-> Hp2]. cbn [fst snd]. exists E2. split; [now rewrite HE2, HE1|].
+        split; [reflexivity|exact Hp2].
+      * destruct Hr as (l' & -> & Hl' & Hp2). cbn [fst snd]. exists E2. split; [now rewrite HE2, HE1|].
+        exists l'. split; [reflexivity|split; [exact Hl'|exact Hp2]].
+Qed.
+
 Definition rf_acct (rf : rfun) (sf : sfun) : Prop :=
   forall otype value opath k ns, Af (opath ++ [KName k]) (rf otype value opath k ns) (sf otype value opath k ns).
 
@@ -136,10 +181,22 @@ Proof.
     [|exact I].
   destruct (spec_fields (fun k ns => sf otype value opath k ns) sub) as [[rkv ro] rc] eqn:Es.
   destruct rc; [destruct rkv; exact I|].
-  rewrite Hconc.
-  destruct (conc_acct (fun k ns => rf otype value opath k ns) _ (fun k => opath ++ [KName k])
-              (fun k ns => H otype value opath k ns) sub s _ _ Es) as (E & HE & Hr).
-  destruct (exec_fields_conc _ sub s) as [r s1]. cbn [fst snd] in *.
+  set (run := if parent_concurrently cfg then _ else _).
+  assert (Hx : exists E, s_errors (snd run) = s_errors s ++ E /\
+    match rkv with
+    | Some kv => fst run = OVal kv /\ rel (reported E) (opaths ro)
+    | None => exists l, fst run = OExc l /\ all_located l /\ rel (reported E ++ raised_at [] l) (opaths ro)
+    end).
+  { unfold run. destruct (Bool.bool_dec (parent_concurrently cfg) true) as [Ec|Ec].
+    - rewrite Ec. exact (conc_acct (fun k ns => rf otype value opath k ns) _ (fun k => opath ++ [KName k])
+              (fun k ns => H otype value opath k ns) sub s _ _ Es).
+    - apply Bool.not_true_is_false in Ec.
+      assert (Hfull : full = false).
+      { apply Bool.not_true_is_false. intros Hf. pose proof (Hmode Hf) as Hm. rewrite Ec in Hm. discriminate Hm. }
+      rewrite Ec. exact (seq_acct (fun k ns => rf otype value opath k ns) _ (fun k => opath ++ [KName k]) Hfull
+              (fun k ns => H otype value opath k ns) sub s _ _ Es). }
+  destruct Hx as (E & HE & Hr). clearbody run.
+  destruct run as [r s1]. cbn [fst snd] in *.
   destruct rkv as [kv|].
   - destruct Hr as [-> Hp]. cbn [fst snd]. exists E. split; [exact HE|]. split; [reflexivity|exact Hp].
   - destruct Hr as (l & -> & Hl & Hp). cbn [fst snd]. exists E. split; [exact HE|].
@@ -150,9 +207,9 @@ Qed.
 Definition AL (p : list pkey) (m : M pyval) (r : sres) : Prop :=
   forall s,
     match r with
-    | SVal v o => exists E, s_errors (snd (m s)) = s_errors s ++ E /\ fst (m s) = OVal v /\ sameset (reported E) (opaths o)
+    | SVal v o => exists E, s_errors (snd (m s)) = s_errors s ++ E /\ fst (m s) = OVal v /\ rel (reported E) (opaths o)
     | SFail o => exists E, s_errors (snd (m s)) = s_errors s ++ E /\
-                   exists l, fst (m s) = OExc l /\ all_located l /\ sameset (reported E ++ raised_at p l) (opaths o)
+                   exists l, fst (m s) = OExc l /\ all_located l /\ rel (reported E ++ raised_at p l) (opaths o)
     | SCrash => True
     end.
 
@@ -161,13 +218,13 @@ Lemma complete_items_acct (ci : pyval -> list pkey -> M pyval) sci path :
   spec_items sci path i items = (rl, ro, false) ->
   exists E, s_errors (snd (complete_items ci path i items s)) = s_errors s ++ E /\
     match rl with
-    | Some l => fst (complete_items ci path i items s) = OVal l /\ sameset (reported E) (opaths ro)
+    | Some l => fst (complete_items ci path i items s) = OVal l /\ rel (reported E) (opaths ro)
     | None => exists l, fst (complete_items ci path i items s) = OExc l /\ all_located l /\
-                        sameset (reported E ++ raised_at [] l) (opaths ro)
+                        rel (reported E ++ raised_at [] l) (opaths ro)
     end.
 Proof.
   intros H. induction items as [|x xs IH]; intros i s rl ro; cbn [spec_items complete_items].
-  - intros E. inversion E. exists []. rewrite app_nil_r. split; [reflexivity|]. split; [reflexivity|]. intros y. reflexivity.
+  - intros E. inversion E. exists []. rewrite app_nil_r. split; [reflexivity|]. split; [reflexivity|]. intros y. tauto.
   - destruct (spec_items sci path (i + 1)%Z xs) as [[rl0 ro0] rc0] eqn:Er.
     pose proof (H x (path ++ [KIdx i]) s) as Hx.
     destruct (ci x (path ++ [KIdx i]) s) as [r s1] eqn:E1r. cbn [fst snd] in Hx.
@@ -223,8 +280,8 @@ Qed.
 Lemma is_exc_value_unlocated v e : is_exc_value v = Some e -> p_path e = None.
 Proof. unfold is_exc_value. destruct v; try discriminate. destruct e0; intros H; inversion H; reflexivity. Qed.
 
-Ltac aval := exists []; rewrite app_nil_r; split; [reflexivity|]; split; [reflexivity|]; intros ?; reflexivity.
-Ltac afail := exists []; rewrite app_nil_r; split; [reflexivity|]; eexists; split; [reflexivity|]; cbn; intros ?; reflexivity.
+Ltac aval := exists []; rewrite app_nil_r; split; [reflexivity|]; split; [reflexivity|]; intros ?; tauto.
+Ltac afail := exists []; rewrite app_nil_r; split; [reflexivity|]; eexists; split; [reflexivity|]; cbn; intros ?; tauto.
 Ltac triv := first [exact I | aval | afail].
 
 Section Chain.
@@ -294,7 +351,7 @@ Lemma exc_value_acct x e ip :
   is_exc_value x = Some e -> A ip (fun s0 => (OExc [e], s0)) (fail_here ip).
 Proof.
   intros He s. unfold fail_here. exists []. rewrite app_nil_r. split; [reflexivity|]. exists [e]. split; [reflexivity|].
-  cbn. rewrite (is_exc_value_unlocated _ _ He). intros ?; reflexivity.
+  cbn. rewrite (is_exc_value_unlocated _ _ He). intros ?; tauto.
 Qed.
 
 Lemma coerce_output_acct t : forall v p,
@@ -419,7 +476,7 @@ Lemma completed_fail_acct l :
   unlocated l -> l <> [] -> A path (completed_of (OExc l)) (fail_here path).
 Proof.
   intros Hu Hne s. unfold fail_here, completed_of. exists []. rewrite app_nil_r. split; [reflexivity|].
-  exists l. split; [reflexivity|]. cbn [reported map app]. now apply raised_at_unlocated.
+  exists l. split; [reflexivity|]. cbn [reported map app]. apply sameset_rel. now apply raised_at_unlocated.
 Qed.
 End Field.
 
@@ -462,10 +519,10 @@ Qed.
    with that data and its "errors" entry accounts for exactly the origins: every origin is the path
    of some reported error, every reported error carries a path, and that path is an origin *)
 Theorem execute_operation_accounts op root d o :
-  o_kind op <> OpMutation ->
+  (full = true -> o_kind op <> OpMutation) ->
   spec_execute_operation sch doc vs U op root = Some (d, o) ->
   exists r, execute_operation sch doc vs U cfg op root = OVal r /\ r_data r = d /\
-            sameset (map g_path (r_errors r)) (map Some o).
+            rel (map g_path (r_errors r)) (map Some o).
 Proof.
   intros Hk. unfold spec_execute_operation, execute_operation.
   destruct (root_type_of sch (o_kind op)) as [rt|]; [|discriminate].
@@ -476,20 +533,78 @@ Proof.
   assert (Hf : forall k ns, Af ([] ++ [KName k]) (rf k ns) (sf k ns)) by (intros; apply resolve_field_acct).
   destruct (spec_fields sf (group_fields flat [])) as [[rkv ro] rc] eqn:Es.
   destruct rc; [destruct rkv; discriminate|].
-  destruct (conc_acct rf sf (fun k => [] ++ [KName k]) Hf (group_fields flat []) st0 _ _ Es) as (E & HE & Hr).
   intros Eq.
-  assert (Hrun : exists r, match exec_fields_conc rf (group_fields flat []) st0 with
+  assert (Hrun : forall run : M (list (string * pyval)),
+            (exists E, s_errors (snd (run st0)) = s_errors st0 ++ E /\
+               match rkv with
+               | Some kv => fst (run st0) = OVal kv /\ rel (reported E) (opaths ro)
+               | None => exists l, fst (run st0) = OExc l /\ all_located l /\ rel (reported E ++ raised_at [] l) (opaths ro)
+               end) ->
+            exists r, match run st0 with
                       | (OVal kv, s) => OVal {| r_data := PDict kv; r_errors := s_errors s; r_log := s_log s |}
                       | (OExc l, s) => OVal {| r_data := PNone; r_errors := s_errors (add_errors l s); r_log := s_log (add_errors l s) |}
                       | (OCrash e, _) => OCrash e
-                      end = OVal r /\ r_data r = d /\ sameset (map g_path (r_errors r)) (map Some o)).
-  { destruct (exec_fields_conc rf (group_fields flat []) st0) as [x s]. cbn [fst snd] in *.
+                      end = OVal r /\ r_data r = d /\ rel (map g_path (r_errors r)) (map Some o)).
+  { intros run (E & HE & Hr). destruct (run st0) as [x s]. cbn [fst snd] in *.
     destruct rkv as [kv|]; inversion Eq; subst.
     - destruct Hr as [-> Hp]. eexists. split; [reflexivity|]. split; [reflexivity|]. cbn [r_errors]. rewrite HE. exact Hp.
     - destruct Hr as (l & -> & Hl & Hp). eexists. split; [reflexivity|]. split; [reflexivity|].
       cbn [r_errors add_errors s_errors]. rewrite HE. cbn [app].
       fold (reported (E ++ map finalize l)). rewrite reported_app, (reported_finalize [] l Hl). exact Hp. }
-  destruct (o_kind op); [rewrite Hconc; exact Hrun|contradiction|rewrite Hconc; exact Hrun].
+  pose proof (conc_acct rf sf (fun k => [] ++ [KName k]) Hf (group_fields flat []) st0 _ _ Es) as Hc.
+  assert (Hs : full = false ->
+               exists E, s_errors (snd (exec_fields_seq rf (group_fields flat []) st0)) = s_errors st0 ++ E /\
+               match rkv with
+               | Some kv => fst (exec_fields_seq rf (group_fields flat []) st0) = OVal kv /\ rel (reported E) (opaths ro)
+               | None => exists l, fst (exec_fields_seq rf (group_fields flat []) st0) = OExc l /\ all_located l /\
+                                   rel (reported E ++ raised_at [] l) (opaths ro)
+               end).
+  { intros Hfull. exact (seq_acct rf sf (fun k => [] ++ [KName k]) Hfull Hf (group_fields flat []) st0 _ _ Es). }
+  assert (Hcs : exists E, s_errors (snd ((if parent_concurrently cfg then exec_fields_conc rf (group_fields flat [])
+                                          else exec_fields_seq rf (group_fields flat [])) st0)) = s_errors st0 ++ E /\
+               match rkv with
+               | Some kv => fst ((if parent_concurrently cfg then exec_fields_conc rf (group_fields flat [])
+                                          else exec_fields_seq rf (group_fields flat [])) st0) = OVal kv /\ rel (reported E) (opaths ro)
+               | None => exists l, fst ((if parent_concurrently cfg then exec_fields_conc rf (group_fields flat [])
+                                          else exec_fields_seq rf (group_fields flat [])) st0) = OExc l /\ all_located l /\
+                                   rel (reported E ++ raised_at [] l) (opaths ro)
+               end).
+  { destruct (Bool.bool_dec (parent_concurrently cfg) true) as [Ec|Ec].
+    - rewrite Ec. exact Hc.
+    - apply Bool.not_true_is_false in Ec. rewrite Ec. apply Hs.
+      apply Bool.not_true_is_false. intros Hf'. pose proof (Hmode Hf') as Hm. rewrite Ec in Hm. discriminate Hm. }
+  destruct (o_kind op).
+  - apply Hrun. exact Hcs.
+  - apply Hrun. apply Hs. apply Bool.not_true_is_false. intros Hf'. now apply (Hk Hf').
+  - apply Hrun. exact Hcs.
 Qed.
 
 End Origins.
+
+(* exact accounting: queries / subscription sources with every sibling executed *)
+Theorem execute_operation_accounts_exact sch doc vs U cfg op root d o :
+  parent_concurrently cfg = true -> o_kind op <> OpMutation ->
+  spec_execute_operation sch doc vs U op root = Some (d, o) ->
+  exists r, execute_operation sch doc vs U cfg op root = OVal r /\ r_data r = d /\
+            sameset (map g_path (r_errors r)) (map Some o).
+Proof.
+  intros Hc Hk Hs.
+  destruct (execute_operation_accounts sch doc vs U cfg true (fun _ => Hc) op root d o (fun _ => Hk) Hs) as (r & Hr & Hd & Hp).
+  exists r. split; [exact Hr|]. split; [exact Hd|]. intros x. destruct (Hp x) as [H1 H2]. split; [exact H1|exact (H2 eq_refl)].
+Qed.
+
+(* every operation kind, every configuration: the data is the specified one and no entry of
+   `errors` points anywhere but at a failure origin of the specification *)
+Theorem execute_operation_accounts_incl sch doc vs U cfg op root d o :
+  spec_execute_operation sch doc vs U op root = Some (d, o) ->
+  exists r, execute_operation sch doc vs U cfg op root = OVal r /\ r_data r = d /\
+            forall e, In e (r_errors r) -> exists p, g_path e = Some p /\ In p o.
+Proof.
+  intros Hs.
+  assert (Hm : false = true -> parent_concurrently cfg = true) by discriminate.
+  assert (Hk : false = true -> o_kind op <> OpMutation) by discriminate.
+  destruct (execute_operation_accounts sch doc vs U cfg false Hm op root d o Hk Hs) as (r & Hr & Hd & Hp).
+  exists r. split; [exact Hr|]. split; [exact Hd|]. intros e Hin.
+  pose proof (proj1 (Hp (g_path e)) (in_map g_path _ _ Hin)) as Hx.
+  apply in_map_iff in Hx. destruct Hx as (p & Hpe & Hinp). exists p. split; [now symmetry|assumption].
+Qed.
